@@ -48,6 +48,8 @@ func (w *dagWorld) counts() *shrinkingmap.ShrinkingMap[int, int] {
 // waiters sums the goroutines parked on the condition variables of all registered entity mutexes.
 func (w *dagWorld) waiters() int {
 	if !tryLockFor(&w.d.Mutex, time.Second) {
+		stalls.Add(1)
+
 		return -1
 	}
 	defer w.d.Mutex.Unlock()
@@ -63,6 +65,8 @@ func (w *dagWorld) waiters() int {
 
 func (w *dagWorld) obs() string {
 	if !tryLockFor(&w.d.Mutex, time.Second) {
+		stalls.Add(1)
+
 		return statuses(w.actors) + " d-stuck"
 	}
 	defer w.d.Mutex.Unlock()
@@ -338,7 +342,7 @@ func runDagCase(r *hx.Run, sub uint64, n, nEnt int, prefix []arrival, maxOps int
 func exploreDag(r *hx.Run, n, nEnt, maxOps, budget int, sample bool) {
 	work := [][]arrival{nil}
 	cases := 0
-	for len(work) > 0 && cases < budget {
+	for len(work) > 0 && cases < budget && !giveUp() {
 		i := len(work) - 1
 		if sample {
 			i = r.Rng.Intn(len(work))
